@@ -438,3 +438,391 @@ Proof.
     change (u32 0) with 0. apply IH. exact Htl. }
   rewrite E. cbn. auto.
 Qed.
+
+(* ================================================================== *)
+(* distrib_disjoint: pairwise disjoint answers                         *)
+
+(* ---------- the cardinal of a disjoint union ---------- *)
+
+Lemma count_below_union b a c : bs_intersects a c = false ->
+  count_below b (bs_union a c) = count_below b a + count_below b c.
+Proof.
+  intros D. induction b as [|b IH]; cbn [count_below]; [reflexivity|]. rewrite IH, mem_union.
+  destruct (mem (N.of_nat b) a) eqn:Ea, (mem (N.of_nat b) c) eqn:Ec; cbn [orb]; try lia.
+  exfalso. assert (bs_intersects a c = true) by (apply bs_intersects_spec; eauto). congruence.
+Qed.
+
+Lemma count_below_stable s B : (forall i, N.of_nat B <= i -> mem i s = false) ->
+  forall b, (B <= b)%nat -> count_below b s = count_below B s.
+Proof.
+  intros H b Hb. induction Hb as [|b Hb IH]; [reflexivity|]. cbn [count_below]. rewrite IH, H by lia. lia.
+Qed.
+
+Lemma weight_count s : inf s = false -> exists B, forall b, (B <= b)%nat -> bs_weight s = Some (count_below b s).
+Proof.
+  destruct s as [f i]. cbn [inf]. intros ->. unfold bs_weight. cbn [inf fin]. destruct f as [|p].
+  - exists 0%nat. intros b _. f_equal. induction b as [|b IH]; cbn [count_below]; [reflexivity|].
+    rewrite <- IH. unfold mem. cbn [fin inf]. rewrite N.bits_0. reflexivity.
+  - exists (Pos.to_nat (Pos.size p)). intros b Hb. f_equal. rewrite pos_weight_count.
+    symmetry. apply count_below_stable; [|exact Hb].
+    intros j Hj. unfold mem, bs_of_N. cbn [fin inf]. rewrite xorb_false_r. apply N.bits_above_log2.
+    pose proof (N.size_log2 (Npos p) ltac:(discriminate)) as E. cbn [N.size] in E. lia.
+Qed.
+
+Lemma weight_union a c : inf a = false -> inf c = false -> bs_intersects a c = false ->
+  exists wa wc, bs_weight a = Some wa /\ bs_weight c = Some wc /\ bs_weight (bs_union a c) = Some (wa + wc).
+Proof.
+  intros Ia Ic D.
+  assert (Iu : inf (bs_union a c) = false) by (unfold bs_union; rewrite Ia, Ic; reflexivity).
+  destruct (weight_count a Ia) as [B1 H1]. destruct (weight_count c Ic) as [B2 H2]. destruct (weight_count _ Iu) as [B3 H3].
+  set (b := (B1 + B2 + B3)%nat).
+  exists (count_below b a), (count_below b c). split; [apply H1; lia|]. split; [apply H2; lia|].
+  rewrite (H3 b) by lia. now rewrite count_below_union.
+Qed.
+
+Lemma small_weight_inf s : small_weight s = true -> inf s = false /\ bs_weight s = Some (weight_u s).
+Proof.
+  unfold small_weight, weight_u. destruct (bs_weight s) as [w|] eqn:E; [|discriminate].
+  intros H. apply N.ltb_lt in H. rewrite u32_small by exact H. split; [|reflexivity].
+  unfold bs_weight in E. destruct (inf s); [discriminate|reflexivity].
+Qed.
+
+Definition ssum (l : list bset) : N := fold_right (fun s acc => weight_u s + acc) 0 l.
+
+Lemma disjoint_union_list s l : forallb (fun t => negb (bs_intersects s t)) l = true -> bs_intersects s (union_list l) = false.
+Proof.
+  intros H. apply intersects_false. intros i Hi. rewrite mem_union_list. apply not_true_iff_false. intros X.
+  apply existsb_exists in X as [t [H1 H2]]. rewrite forallb_forall in H. specialize (H t H1). apply negb_true_iff in H.
+  rewrite intersects_false in H. rewrite (H i Hi) in H2. discriminate.
+Qed.
+
+Lemma union_list_weight l : forallb small_weight l = true -> pairwise_disjoint l = true ->
+  bs_weight (union_list l) = Some (ssum l).
+Proof.
+  induction l as [|s tl IH]; intros Hs Hd; [reflexivity|].
+  cbn [forallb] in Hs. apply andb_true_iff in Hs as [Hs1 Hs2].
+  cbn [pairwise_disjoint] in Hd. apply andb_true_iff in Hd as [Hd1 Hd2].
+  specialize (IH Hs2 Hd2). cbn [union_list fold_right ssum]. fold (union_list tl) (ssum tl).
+  destruct (small_weight_inf s Hs1) as [I1 W1].
+  assert (I2 : inf (union_list tl) = false) by (unfold bs_weight in IH; destruct (inf (union_list tl)); [discriminate|reflexivity]).
+  destruct (weight_union s (union_list tl) I1 I2 (disjoint_union_list _ _ Hd1)) as (wa & wc & E1 & E2 & E3).
+  rewrite E3. congruence.
+Qed.
+
+Lemma weight_u_le s w : bs_weight s = Some w -> weight_u s <= w.
+Proof. unfold weight_u. intros ->. unfold u32. apply N.mod_le. rewrite pow32. discriminate. Qed.
+
+Lemma csum_ssum l : csum l = ssum (map cs l).
+Proof. induction l as [|c tl IH]; [reflexivity|]. cbn [map]. unfold csum, ssum in *. cbn [fold_right]. now rewrite IH. Qed.
+
+(* the weight of an object is at most the sum of its children's *)
+Lemma weight_le_csum B o : tree_wf o = true -> wbound B o = true -> onch o <> [] -> weight_u (cs o) <= csum (onch o).
+Proof.
+  intros W WB NE. pose proof (tree_wf_inv _ W) as (_ & WD & _ & _ & WU). specialize (WU NE).
+  rewrite wbound_eq in WB. apply andb_true_iff in WB as [WB _]. apply andb_true_iff in WB as [_ WB2].
+  rewrite WU, csum_ssum. apply weight_u_le. apply union_list_weight; [|exact WD].
+  rewrite forallb_forall in *. intros s Hs. apply in_map_iff in Hs as [c [<- Hc]]. auto.
+Qed.
+
+Lemma cdiv_add_le n tot x w : 0 < tot -> n <= tot -> cdiv n tot (x + w) <= cdiv n tot x + w.
+Proof.
+  intros Ht Hn. unfold cdiv.
+  assert (E : (x * n + tot - 1) / tot + w = (x * n + tot - 1 + w * tot) / tot) by (symmetry; apply N.div_add; lia).
+  rewrite E. apply N.div_le_mono; [lia|].
+  assert (w * n <= w * tot) by (apply N.mul_le_mono_l; exact Hn). lia.
+Qed.
+
+Lemma pairwise_disjoint_app_inv a b : pairwise_disjoint (a ++ b) = true ->
+  pairwise_disjoint a = true /\ pairwise_disjoint b = true /\ (forall s t, In s a -> In t b -> bs_intersects s t = false).
+Proof.
+  induction a as [|x tl IH]; cbn [app pairwise_disjoint]; intros H; [repeat split; auto; intros s t []|].
+  apply andb_true_iff in H as [H1 H2]. rewrite forallb_app in H1. apply andb_true_iff in H1 as [H1a H1b].
+  destruct (IH H2) as (I1 & I2 & I3). split; [now rewrite H1a, I1|]. split; [exact I2|].
+  intros s t [<-|Hs] Ht; [|auto]. rewrite forallb_forall in H1b. now apply negb_true_iff, H1b.
+Qed.
+
+Lemma pairwise_disjoint_rev l : pairwise_disjoint l = true -> pairwise_disjoint (rev l) = true.
+Proof.
+  induction l as [|s tl IH]; intros H; [reflexivity|]. cbn [pairwise_disjoint] in H. apply andb_true_iff in H as [H1 H2].
+  cbn [rev]. apply pairwise_disjoint_app; [auto|reflexivity|].
+  intros t u Ht [<-|[]]. apply in_rev in Ht. rewrite forallb_forall in H1. rewrite intersects_sym. now apply negb_true_iff, H1.
+Qed.
+
+Definition sub_goodD (T : bset) (k : N) (r : dres) : Prop :=
+  exists sets, r = D_ok (map Some sets) /\ N.of_nat (List.length sets) = k /\ good_sets T sets /\ union_list sets = T /\
+               pairwise_disjoint sets = true.
+
+Section LoopD.
+  Variables (until : Z) (n tot : N) (U : bset).
+  Hypothesis Hn : 1 <= n.
+  Hypothesis Htot : 0 < tot.
+  Hypothesis Hb : tot * n + tot <= 2 ^ 32.
+  Hypothesis Hnt : n <= tot.
+
+  Definition entry_okD (e : entry) : Prop :=
+    small_weight (e_cs e) = true /\
+    bs_subset (e_cs e) U = true /\
+    (o_arity (odata (e_obj e)) = 0 \/ (until <= o_depth (odata (e_obj e)))%Z -> weight_u (e_cs e) <= 1) /\
+    (forall k, 2 <= k -> k <= n -> k <= weight_u (e_cs e) -> o_arity (odata (e_obj e)) <> 0 -> (o_depth (odata (e_obj e)) < until)%Z ->
+               sub_goodD (e_cs e) k (e_sub e k)).
+
+  Definition invD (P : list entry) (st : dstate) : Prop :=
+    exists sets, st = (D_ok (map Some sets), cdiv n tot (wsumN P), wsumN P) /\
+                 N.of_nat (List.length sets) = cdiv n tot (wsumN P) /\
+                 good_sets U sets /\ union_list sets = union_list (map e_cs P) /\ pairwise_disjoint sets = true.
+
+  (* a set inside the processed roots does not meet a root disjoint from them *)
+  Lemma old_new_disjoint sets P c s t :
+    union_list sets = union_list (map e_cs P) -> (forall e', In e' P -> bs_intersects (e_cs e') c = false) ->
+    In s sets -> bs_subset t c = true -> bs_intersects s t = false.
+  Proof.
+    intros Hun Hd Hs Ht. apply intersects_false. intros i Hi.
+    destruct (mem i t) eqn:Et; auto. exfalso.
+    assert (M : mem i (union_list sets) = true) by (rewrite mem_union_list; apply existsb_exists; eauto).
+    rewrite Hun, mem_union_list in M. apply existsb_exists in M as [u [H1 H2]]. apply in_map_iff in H1 as [e' [<- He']].
+    specialize (Hd e' He'). rewrite intersects_false in Hd. rewrite bs_subset_spec in Ht.
+    pose proof (Ht i Et) as K. rewrite (Hd i H2) in K. discriminate.
+  Qed.
+
+  Lemma step_invD P e st :
+    invD P st -> entry_okD e -> wsumN P + weight_u (e_cs e) <= tot ->
+    (forall e', In e' P -> bs_intersects (e_cs e') (e_cs e) = false) ->
+    invD (P ++ [e]) (distrib_step until n tot st e).
+  Proof.
+    intros (sets & -> & Hlen & Hgood & Hun & Hpd) (Hsm & Hsub & Hleaf & Hrec) Hle Hdj.
+    set (gw := wsumN P) in *. set (w := weight_u (e_cs e)) in *.
+    assert (HwP : wsumN (P ++ [e]) = gw + w).
+    { rewrite wsumN_app. cbn [wsumN fold_right]. fold w. fold gw. lia. }
+    assert (HUP : union_list (map e_cs (P ++ [e])) = bs_union (union_list (map e_cs P)) (e_cs e)).
+    { rewrite map_app, union_list_app. cbn [map union_list fold_right]. now rewrite union_empty_r. }
+    unfold distrib_step. fold w.
+    destruct (N.eqb_spec w 0) as [Ew|Nw].
+    - exists sets. rewrite HwP. rewrite Ew. rewrite N.add_0_r. repeat split; auto.
+      rewrite HUP, (weight_u_zero _ Hsm Ew), union_empty_r. exact Hun.
+    - assert (Hc : chunk_of gw w n tot = cdiv n tot (gw + w) - cdiv n tot gw) by (apply chunk_of_exact; assumption).
+      pose proof (cdiv_mono n tot gw (gw + w) Htot ltac:(lia)) as Hmono.
+      pose proof (cdiv_le_n n tot (gw + w) Htot Hle) as Hlen'.
+      pose proof (cdiv_add_le n tot gw w Htot Hnt) as Hcw.
+      assert (Hn32 : n < 2 ^ 32).
+      { assert (1 * n <= tot * n) by (apply N.mul_le_mono_r; lia). lia. }
+      set (chunk := chunk_of gw w n tot) in *.
+      assert (Eg : u32 (cdiv n tot gw + chunk) = cdiv n tot (gw + w)) by (rewrite u32_small; lia).
+      assert (Ew' : u32 (gw + w) = gw + w).
+      { apply u32_small. assert (tot <= tot * n + tot) by lia. rewrite pow32 in *. lia. }
+      unfold invD. rewrite Eg, Ew'. rewrite HwP, HUP.
+      assert (NEe : e_cs e <> bs_empty) by (intros X; apply Nw; unfold w; rewrite X; reflexivity).
+      destruct ((o_arity (odata (e_obj e)) =? 0) || (chunk <=? 1) || (until <=? o_depth (odata (e_obj e)))%Z) eqn:Eleaf.
+      + assert (Hc1 : chunk <= 1).
+        { apply orb_true_iff in Eleaf as [Eleaf|E3].
+          - apply orb_true_iff in Eleaf as [E1|E2]; [|now apply N.leb_le].
+            apply N.eqb_eq in E1. specialize (Hleaf (or_introl E1)). lia.
+          - apply Z.leb_le in E3. specialize (Hleaf (or_intror E3)). lia. }
+        destruct (N.ltb_spec 0 chunk) as [Hpos|Hzero].
+        * assert (E1 : N.to_nat chunk = 1%nat) by lia. rewrite E1. cbn [repeat].
+          exists (sets ++ [e_cs e]). rewrite map_app. cbn [map]. split; [reflexivity|]. split; [rewrite app_length; cbn [List.length]; lia|].
+          split; [apply Forall_app; split; [exact Hgood|constructor; [auto|constructor]]|].
+          split; [rewrite union_list_app, Hun; cbn [union_list fold_right]; now rewrite union_empty_r|].
+          apply pairwise_disjoint_app; [exact Hpd|reflexivity|].
+          intros s t Hs [<-|[]]. eapply old_new_disjoint; eauto. apply subset_refl.
+        * assert (Hgw : gw <> 0).
+          { intros X. rewrite X in *. rewrite cdiv_0 in Hc by exact Htot. cbn [N.add] in Hc.
+            pose proof (cdiv_pos n tot w Htot ltac:(lia) Hn). lia. }
+          pose proof (cdiv_pos n tot gw Htot ltac:(lia) Hn) as Hg1.
+          destruct (N.eqb_spec (cdiv n tot gw) 0) as [X|_]; [lia|].
+          destruct (exists_last (l := sets)) as (sets0 & l & ->).
+          { intros X. rewrite X in Hlen. cbn in Hlen. lia. }
+          unfold or_last. rewrite map_app. cbn [map]. rewrite last_last, removelast_last.
+          exists (sets0 ++ [bs_union l (e_cs e)]). rewrite map_app. cbn [map].
+          split; [reflexivity|]. split; [rewrite app_length in *; cbn [List.length] in *; lia|].
+          unfold good_sets in Hgood. apply Forall_app in Hgood as [G0 Gl]. inversion Gl as [|? ? [Gl1 Gl2] _]; subst.
+          destruct (pairwise_disjoint_app_inv _ _ Hpd) as (P0 & _ & P1).
+          split.
+          { apply Forall_app. split; [exact G0|]. constructor; [|constructor]. split.
+            - intros X. apply NEe. apply bs_ext. intros i. rewrite mem_empty.
+              assert (Y : mem i (bs_union l (e_cs e)) = false) by (rewrite X; apply mem_empty).
+              rewrite mem_union in Y. now apply orb_false_iff in Y.
+            - apply bs_subset_spec. intros i. rewrite mem_union. rewrite bs_subset_spec in Gl2, Hsub.
+              intros Y. apply orb_true_iff in Y as [Y|Y]; auto. }
+          split.
+          { rewrite union_list_app in *. cbn [union_list fold_right] in *. rewrite <- Hun.
+            apply bs_ext. intros i. rewrite !mem_union, !mem_empty.
+            destruct (mem i (union_list sets0)), (mem i l), (mem i (e_cs e)); reflexivity. }
+          apply pairwise_disjoint_app; [exact P0|reflexivity|].
+          intros s t Hs [<-|[]]. apply intersects_false. intros i Hi. rewrite mem_union.
+          pose proof (P1 s l Hs (or_introl eq_refl)) as D1. rewrite intersects_false in D1. rewrite (D1 i Hi). cbn [orb].
+          assert (D2 : bs_intersects s (e_cs e) = false).
+          { eapply old_new_disjoint; [exact Hun|exact Hdj| |apply subset_refl]. apply in_or_app. now left. }
+          rewrite intersects_false in D2. auto.
+      + apply orb_false_iff in Eleaf as [Eleaf E3]. apply orb_false_iff in Eleaf as [E1 E2].
+        apply N.eqb_neq in E1. apply N.leb_gt in E2. apply Z.leb_gt in E3.
+        destruct (Hrec chunk ltac:(lia) ltac:(lia) ltac:(lia) E1 E3) as (ss & Es & Els & Egs & Eus & Eds).
+        rewrite Es. rewrite (pad_exact _ _ Els).
+        exists (sets ++ ss). rewrite map_app. split; [reflexivity|]. split; [rewrite app_length; lia|].
+        split; [apply Forall_app; split; [exact Hgood|eapply good_sets_mono; eauto]|].
+        split; [rewrite union_list_app, Hun, Eus; reflexivity|].
+        apply pairwise_disjoint_app; [exact Hpd|exact Eds|].
+        intros s t Hs Ht. eapply old_new_disjoint; eauto.
+        unfold good_sets in Egs. rewrite Forall_forall in Egs. now apply Egs.
+  Qed.
+
+  Lemma loop_invD rest : forall P st,
+    invD P st -> Forall entry_okD rest -> wsumN P + wsumN rest <= tot ->
+    pairwise_disjoint (map e_cs (P ++ rest)) = true ->
+    invD (P ++ rest) (fold_left (distrib_step until n tot) rest st).
+  Proof.
+    induction rest as [|e tl IH]; intros P st Hi Hok Hle Hpd; cbn [fold_left].
+    - now rewrite app_nil_r.
+    - inversion Hok as [|? ? Hoe Hotl]; subst. cbn [wsumN fold_right] in Hle. fold (wsumN tl) in Hle.
+      change (P ++ e :: tl) with (P ++ [e] ++ tl) in *. rewrite app_assoc in *. apply IH; [|exact Hotl| |exact Hpd].
+      + apply step_invD; auto; [lia|].
+        rewrite map_app in Hpd. destruct (pairwise_disjoint_app_inv _ _ Hpd) as (D1 & _ & _).
+        rewrite map_app in D1. destruct (pairwise_disjoint_app_inv _ _ D1) as (_ & _ & D2).
+        intros e' He'. apply D2; [now apply in_map|now left].
+      + rewrite wsumN_app. cbn [wsumN fold_right]. lia.
+  Qed.
+End LoopD.
+
+Lemma distrib_loop_goodD until rv roots n :
+  1 <= n -> n <= wsumN roots -> wsumN roots * n + wsumN roots <= 2 ^ 32 ->
+  pairwise_disjoint (map e_cs roots) = true ->
+  Forall (entry_okD until n (union_list (map e_cs roots))) roots ->
+  sub_goodD (union_list (map e_cs roots)) n (distrib_loop until rv roots n).
+Proof.
+  intros Hn Hnt Hb Hpd Hok. unfold distrib_loop.
+  assert (Ht : 0 < wsumN roots) by lia.
+  assert (Hlt : wsumN roots < 2 ^ 32) by (rewrite pow32 in *; lia).
+  rewrite (tot_weight_sum _ Hlt).
+  set (tot := wsumN roots) in *. set (U := union_list (map e_cs roots)) in *.
+  set (order := if rv then rev roots else roots).
+  assert (Ho1 : wsumN order = tot) by (unfold order; destruct rv; [apply wsumN_rev|reflexivity]).
+  assert (Ho2 : union_list (map e_cs order) = U).
+  { unfold order; destruct rv; [|reflexivity]. now rewrite map_rev, union_list_rev. }
+  assert (Ho3 : Forall (entry_okD until n U) order).
+  { unfold order; destruct rv; [|exact Hok]. apply Forall_forall. intros e He. rewrite Forall_forall in Hok. apply Hok. now apply in_rev. }
+  assert (Ho4 : pairwise_disjoint (map e_cs order) = true).
+  { unfold order; destruct rv; [|exact Hpd]. rewrite map_rev. now apply pairwise_disjoint_rev. }
+  assert (I0 : invD n tot U [] (D_ok [], 0, 0)).
+  { exists []. cbn [wsumN fold_right map List.length union_list]. rewrite cdiv_0 by exact Ht. repeat split; constructor. }
+  pose proof (loop_invD until n tot U Hn Ht Hb Hnt order [] _ I0 Ho3) as L.
+  cbn [wsumN fold_right app] in L. specialize (L ltac:(lia) Ho4).
+  destruct L as (sets & -> & Hlen & Hg & Hu & Hd). cbn [fst].
+  exists sets. rewrite Ho1, cdiv_tot in Hlen by exact Ht. rewrite Ho2 in Hu. auto.
+Qed.
+
+(* ---------- the recursion over the tree ---------- *)
+
+Lemma dist_leaves_eq until o :
+  dist_leaves until o =
+  if bs_is_empty (cs o) then []
+  else if (o_arity (odata o) =? 0) || (until <=? o_depth (odata o))%Z then [o]
+  else flat_map (dist_leaves until) (onch o).
+Proof.
+  destruct o as [d n m i x]. cbn [dist_leaves onch odata]. destruct (bs_is_empty _); [reflexivity|].
+  destruct (_ || _); [reflexivity|]. induction n as [|c tl IH]; cbn [flat_map]; [reflexivity|]. now rewrite IH.
+Qed.
+
+(* every distribution leaf below o is a single PU *)
+Definition unit_leaves (until : Z) (o : obj) : bool := forallb (fun l => weight_u (cs l) =? 1) (dist_leaves until o).
+
+Lemma unit_leaves_child until o c :
+  unit_leaves until o = true -> cs o <> bs_empty -> o_arity (odata o) <> 0 -> (o_depth (odata o) < until)%Z ->
+  In c (onch o) -> unit_leaves until c = true.
+Proof.
+  unfold unit_leaves. rewrite (dist_leaves_eq until o). intros H NE Ha Hd Hc.
+  apply is_empty_false in NE. rewrite NE in H.
+  assert (E : (o_arity (odata o) =? 0) || (until <=? o_depth (odata o))%Z = false).
+  { apply orb_false_iff. split; [now apply N.eqb_neq|now apply Z.leb_gt]. }
+  rewrite E in H. apply forallb_forall. intros l Hl. rewrite forallb_forall in H. apply H. apply in_flat_map. eauto.
+Qed.
+
+Lemma unit_leaf_weight until c :
+  unit_leaves until c = true -> (o_arity (odata c) = 0 \/ (until <= o_depth (odata c))%Z) -> weight_u (cs c) <= 1.
+Proof.
+  unfold unit_leaves. rewrite dist_leaves_eq. intros H L. destruct (bs_is_empty (cs c)) eqn:E.
+  - apply bs_is_empty_spec in E. rewrite E. cbn. lia.
+  - assert (X : (o_arity (odata c) =? 0) || (until <=? o_depth (odata c))%Z = true).
+    { apply orb_true_iff. destruct L as [L|L]; [left; now apply N.eqb_eq|right; now apply Z.leb_le]. }
+    rewrite X in H. cbn [forallb] in H. apply andb_true_iff in H as [H _]. apply N.eqb_eq in H. lia.
+Qed.
+
+Lemma dsub_goodD until rv B : forall o, tree_wf o = true -> wbound B o = true -> unit_leaves until o = true ->
+  forall k, 1 <= k -> k <= weight_u (cs o) -> B * k + B <= 2 ^ 32 ->
+  o_arity (odata o) <> 0 -> (o_depth (odata o) < until)%Z ->
+  sub_goodD (cs o) k (dsub until rv o k).
+Proof.
+  intros o. pattern o. apply obj_nind. clear o. intros d n m i x IH W WB UL k Hk Hkw Hb Har Hdep.
+  set (o := Obj d n m i x) in *.
+  assert (NEo : cs o <> bs_empty) by (intros X; rewrite X in Hkw; cbn in Hkw; lia).
+  pose proof (tree_wf_inv _ W) as (WC & WD & Harity & _ & WU). change (onch o) with n in *.
+  assert (NEn : n <> []) by (intros X; rewrite X in Harity; cbn in Harity; contradiction).
+  specialize (WU NEn).
+  pose proof (weight_le_csum B o W WB NEn) as Hwc. change (onch o) with n in Hwc.
+  rewrite wbound_eq in WB. change (onch o) with n in WB.
+  apply andb_true_iff in WB as [WB WB3]. apply andb_true_iff in WB as [WB1 WB2]. apply N.leb_le in WB3.
+  rewrite forallb_forall in WB1, WB2. rewrite Forall_forall in WC, IH.
+  rewrite dsub_eq. change (onch o) with n. rewrite WU. rewrite <- (kids_cs until rv n).
+  assert (Hcs : csum n * k + csum n <= B * k + B).
+  { assert (csum n * k <= B * k) by (apply N.mul_le_mono_r; exact WB3). lia. }
+  apply distrib_loop_goodD; try exact Hk.
+  - rewrite kids_wsum. lia.
+  - rewrite kids_wsum. lia.
+  - rewrite kids_cs. exact WD.
+  - apply Forall_forall. intros e He. unfold kids in He. apply in_map_iff in He as [c [<- Hc]].
+    unfold entry_okD. rewrite kids_cs. unfold entry_of, e_cs, e_obj, e_sub. cbn [fst snd].
+    pose proof (unit_leaves_child until o c UL NEo Har Hdep Hc) as ULc.
+    split; [apply WB2; exact Hc|]. split; [|split].
+    + apply bs_subset_spec. intros j Hj. rewrite mem_union_list. apply existsb_exists.
+      exists (cs c). split; [now apply in_map|exact Hj].
+    + apply unit_leaf_weight. exact ULc.
+    + intros k' Hk1 Hk2 Hk3 Harc Hdc.
+      apply (IH c Hc (WC c Hc) (WB1 c Hc) ULc); auto; try lia.
+      assert (B * k' <= B * k) by (apply N.mul_le_mono_l; exact Hk2). lia.
+Qed.
+
+(* distrib_disjoint: the n sets are pairwise disjoint when the roots are pairwise disjoint, every
+   distribution leaf below them is a single PU and n does not exceed their number (= total weight) *)
+Lemma hwloc_distrib_disjoint roots n until flags B :
+  1 <= n -> (flags = 0 \/ flags = HWLOC_DISTRIB_FLAG_REVERSE) ->
+  Forall (root_ok B) roots -> rsum roots <= B -> B * n + B <= 2 ^ 32 ->
+  pairwise_disjoint (map fst roots) = true ->
+  Forall (fun r => unit_leaves until (snd r) = true) roots ->
+  n <= rsum roots ->
+  exists sets, hwloc_distrib roots n until flags = (0%Z, 0, D_ok (map Some sets)) /\
+               N.of_nat (List.length sets) = n /\ pairwise_disjoint sets = true.
+Proof.
+  intros Hn Hfl Hok Hsum Hb Hpd Hul Hnr.
+  unfold hwloc_distrib.
+  assert (E1 : (n =? 0) = false) by (apply N.eqb_neq; lia).
+  assert (E2 : (N.ldiff flags HWLOC_DISTRIB_FLAG_REVERSE =? 0) = true).
+  { apply N.eqb_eq. destruct Hfl as [-> | ->]; [apply N.ldiff_0_l|apply N.ldiff_diag]. }
+  rewrite E1, E2. cbn [orb negb].
+  set (rv := negb (N.land flags HWLOC_DISTRIB_FLAG_REVERSE =? 0)).
+  set (es := map (fun r => entry_of until rv (fst r) (snd r)) roots).
+  assert (Ecs : map e_cs es = map fst roots) by (unfold es; rewrite map_map; reflexivity).
+  assert (Ews : wsumN es = rsum roots).
+  { unfold es. clear. induction roots as [|r tl IH]; [reflexivity|]. cbn [map wsumN rsum fold_right] in *.
+    fold (wsumN (map (fun r => entry_of until rv (fst r) (snd r)) tl)). rewrite IH. reflexivity. }
+  assert (HB1 : B * 1 <= B * n) by (apply N.mul_le_mono_l; lia).
+  assert (G : sub_goodD (union_list (map e_cs es)) n (distrib_loop until rv es n)).
+  { assert (Hrs : rsum roots * n + rsum roots <= B * n + B).
+    { assert (rsum roots * n <= B * n) by (apply N.mul_le_mono_r; exact Hsum). lia. }
+    apply distrib_loop_goodD; try exact Hn.
+    - rewrite Ews. exact Hnr.
+    - rewrite Ews. lia.
+    - rewrite Ecs. exact Hpd.
+    - apply Forall_forall. intros e He. unfold es in He. apply in_map_iff in He as [r [<- Hr]].
+      rewrite Forall_forall in Hok, Hul. destruct (Hok r Hr) as (Hcs & W & WB & Hs). pose proof (Hul r Hr) as ULr.
+      unfold entry_okD. rewrite Ecs. unfold entry_of, e_cs, e_obj, e_sub. cbn [fst snd].
+      split; [exact Hs|]. split; [|split].
+      + apply bs_subset_spec. intros j Hj. rewrite mem_union_list. apply existsb_exists.
+        exists (fst r). split; [now apply in_map|exact Hj].
+      + rewrite Hcs. apply unit_leaf_weight. exact ULr.
+      + intros k Hk1 Hk2 Hk3 Har Hdep. rewrite Hcs in *.
+        apply (dsub_goodD until rv B (snd r) W WB ULr); auto; try lia.
+        assert (B * k <= B * n) by (apply N.mul_le_mono_l; exact Hk2). lia. }
+  assert (Etot : (tot_weight es =? 0) = false).
+  { apply N.eqb_neq. rewrite tot_weight_sum by (rewrite Ews; rewrite pow32 in *; lia). rewrite Ews. lia. }
+  fold es. rewrite Etot.
+  destruct G as (sets & Es & Hlen & Hg & Hu & Hd). rewrite Es, (pad_exact _ _ Hlen).
+  exists sets. auto.
+Qed.
